@@ -136,6 +136,16 @@ func c09Eval(c *ctx, cs c09Case) {
 		return
 	}
 	fs, ds := real.SnapItem(filled), real.SnapItem(direct)
+	// the same fill asked again gives the same answer
+	if len(keys) >= 2 {
+		for rep := 0; rep < 2; rep++ {
+			var again ast.ItemNode
+			if o := real.Try(func() { again = tpl.FillVariables(raw) }); o.Panicked || real.SnapItem(again).Diff(fs) != "" {
+				c.Violation("C09/fill-not-deterministic", fmt.Sprintf("template %s: repeated fill differs (%s)", clipS(ref.Print(cs.Tpl)), o), cs)
+				return
+			}
+		}
+	}
 	if d := fs.Diff(ds); d != "" {
 		c.Violation("C09/fill-differs-from-direct-construction", d+" template="+clipS(ref.Print(cs.Tpl)), cs)
 		return
